@@ -280,6 +280,13 @@ class Interp:
             v = self.ev(e.value, env)
             self.bind(e.target, v, env)
             return v
+        if isinstance(e, ast.YieldFrom):
+            src = self.ev(e.value, env)
+            if isinstance(src, GenResult) and src.raised is not None:
+                env.setdefault("@yields", []).extend(list(src))
+                raise src.raised
+            env.setdefault("@yields", []).extend(self.iterate(src))
+            return None
         if isinstance(e, ast.Yield):
             # a generator is run eagerly: what it yields is collected (call_function returns the list)
             env.setdefault("@yields", []).append(self.ev(e.value, env) if e.value is not None else None)
